@@ -126,6 +126,14 @@ func cmdStress(args []string) {
 		files = pickFixtures(*testdata, *nfiles, *maxSolo)
 		saveFixtures(*fixturesPath, files)
 		rep.Stages["pick"] = map[string]any{"files": len(files)}
+	} else if want["cold"] {
+		// cold start: the very first parses of this process run at the same time (package-level tables that
+		// are built lazily on first use are built under contention); no solo run comes first
+		files = loadFixtures(*fixturesPath)
+		t0 := time.Now()
+		st := stressProjects(rep, files, *n, 0, *seed)
+		st["wall_s"] = time.Since(t0).Seconds()
+		rep.Stages["cold"] = st
 	} else if want["projects"] || want["shared"] {
 		if *fixturesPath != "" {
 			files = loadFixtures(*fixturesPath)
